@@ -1469,6 +1469,84 @@ func runClosure(c *core.Ctx) []core.Obligation {
 				}
 			}
 		}
+		// (c) a settable reflect.Value made by the constructor (reflect.New(t).Elem(), MakeSlice,
+		// MakeMap) and captured is scratch memory shared by every call: the closure must not
+		// set it or hand it to code that decodes into it
+		if !perCall {
+			for _, fv := range fn.FreeVars {
+				if !isReflectValue(fv.Type()) && !isReflectValue(derefType(fv.Type())) {
+					continue
+				}
+				bind := freeVarBinding(fv)
+				if bind == nil {
+					continue
+				}
+				fresh := false
+				for _, o := range append(origins(bind), bind) {
+					if dependsOn(o, func(x ssa.Value) bool {
+						call, ok := x.(*ssa.Call)
+						if !ok {
+							return false
+						}
+						switch calleeName(call.Common()) {
+						case "reflect.New", "reflect.MakeSlice", "reflect.MakeMap", "reflect.MakeMapWithSize":
+							return true
+						}
+						return false
+					}) {
+						fresh = true
+					}
+				}
+				if a, isA := bind.(*ssa.Alloc); isA && !fresh {
+					for _, sv := range cellStores(a) {
+						if dependsOn(sv, func(x ssa.Value) bool {
+							call, ok := x.(*ssa.Call)
+							if !ok {
+								return false
+							}
+							switch calleeName(call.Common()) {
+							case "reflect.New", "reflect.MakeSlice", "reflect.MakeMap", "reflect.MakeMapWithSize":
+								return true
+							}
+							return false
+						}) {
+							fresh = true
+						}
+					}
+				}
+				if !fresh {
+					continue
+				}
+				// uses of the captured value (or of a load of the captured cell)
+				vals := map[ssa.Value]bool{fv: true}
+				for _, ref := range *fv.Referrers() {
+					if ld, ok := ref.(*ssa.UnOp); ok && ld.Op == token.MUL {
+						vals[ld] = true
+					}
+				}
+				for _, blk := range fn.Blocks {
+					for _, in := range blk.Instrs {
+						ci, ok := in.(ssa.CallInstruction)
+						if !ok {
+							continue
+						}
+						for ai, a := range ci.Common().Args {
+							if !vals[a] {
+								continue
+							}
+							f := staticCallee(ci.Common())
+							mut := true
+							if f != nil && f.Pkg != nil && f.Pkg.Pkg.Path() == "reflect" {
+								mut = ai == 0 && (strings.HasPrefix(f.Name(), "Set") || f.Name() == "Clear" || f.Name() == "Grow")
+							}
+							if mut {
+								bads = append(bads, fmt.Sprintf("write into the reflect.Value %q that the constructor allocated once and every call shares (set, or handed to a decoder) at %s", fv.Name(), c.InstrPos(in)))
+							}
+						}
+					}
+				}
+			}
+		}
 		if len(bads) > 0 {
 			b.bad(key, c.FuncPos(fn), fmt.Sprintf("%s runs on every call, concurrently for the same type, but performs a %s: state shared between goroutines is written without synchronisation", shortName(fn), strings.Join(bads, "; ")))
 		} else {
@@ -1488,4 +1566,26 @@ func derefType(t types.Type) types.Type {
 		return p.Elem()
 	}
 	return t
+}
+
+// freeVarBinding: the value bound to fv where its closure is created (the first creation site).
+func freeVarBinding(fv *ssa.FreeVar) ssa.Value {
+	fn := fv.Parent()
+	idx := -1
+	for i, f := range fn.FreeVars {
+		if f == fv {
+			idx = i
+		}
+	}
+	if fn.Parent() == nil || idx < 0 {
+		return nil
+	}
+	for _, blk := range fn.Parent().Blocks {
+		for _, in := range blk.Instrs {
+			if mc, ok := in.(*ssa.MakeClosure); ok && mc.Fn == ssa.Value(fn) && idx < len(mc.Bindings) {
+				return mc.Bindings[idx]
+			}
+		}
+	}
+	return nil
 }
